@@ -124,10 +124,35 @@ def bit_equal(a, b):
     return thash(a) == thash(b)
 
 
+_KNOWN = None
+
+
+def known_keys():
+    """(property, oracle, site) triples listed in known_findings.json (read-only)"""
+    global _KNOWN
+    if _KNOWN is None:
+        path = os.path.join(os.path.dirname(os.path.dirname(os.path.abspath(__file__))), "known_findings.json")
+        try:
+            with open(path) as f:
+                _KNOWN = {(e["property"], e["oracle"], e["site"]) for e in json.load(f).get("findings", [])}
+        except Exception:
+            _KNOWN = set()
+    return _KNOWN
+
+
 class Stats:
     """Measured reach of one run (merged across runs by the parent)."""
 
+    def known_hit(self, v):
+        """a violation that is a listed known finding: count it and let the run continue"""
+        if v.key() in known_keys():
+            k = "/".join(v.key())
+            self.known[k] = self.known.get(k, 0) + 1
+            return True
+        return False
+
     def __init__(self):
+        self.known = {}
         self.ops = {}
         self.faults = {}
         self.probes = {}
@@ -178,6 +203,7 @@ class Stats:
             "market_years": self.market_years,
             "ambiguous_skipped": self.ambiguous_skipped,
             "checks": self.checks,
+            "known": self.known,
         }
 
 
@@ -185,6 +211,7 @@ class Agg:
     """Aggregate of many Stats (JSON form)."""
 
     def __init__(self):
+        self.known = {}
         self.ops = {}
         self.faults = {}
         self.probes = {}
@@ -198,6 +225,8 @@ class Agg:
         self.checks = 0
 
     def add(self, j):
+        for kk, v in j.get("known", {}).items():
+            self.known[kk] = self.known.get(kk, 0) + v
         for k in ("ops", "faults", "probes"):
             d = getattr(self, k)
             for kk, v in j[k].items():
@@ -215,7 +244,7 @@ class Agg:
             "states": sorted(self.states), "transitions": sorted(self.transitions),
             "bigrams": sorted(self.bigrams), "nontrivial": sorted(self.nontrivial),
             "sim_steps": self.sim_steps, "market_years": self.market_years,
-            "ambiguous_skipped": self.ambiguous_skipped, "checks": self.checks,
+            "ambiguous_skipped": self.ambiguous_skipped, "checks": self.checks, "known": self.known,
         }
 
 
